@@ -141,6 +141,16 @@ def stepOp (st : St) (op obs : String) : St × Option String :=
       if !body.startsWith "ok" then (st, some "concurrent-writers-lost-a-bit") else
       checkWrite st "concurrent" (((List.range nt).map fun i => pages (g + 4096 * (i % 8) + i) 1).flatten) (body.drop 2).toString
     | _, _ => (st, some "unparsable")
+  | ["cwl", nt, _, g, sz, off] =>
+    -- writers concurrent with a re-sent SET_LOG_BASE of the window already in force: no write may miss its bit
+    match hex? nt, hex? g, hex? sz, hex? off with
+    | some nt, some g, some sz, some off =>
+      if body.startsWith "lbfail" then
+        (if st.table.all (fun r => decide (covers sz r)) then (st, some "log-base-refused-although-log-covers") else (st, none))
+      else if !body.startsWith "ok" then (st, some "write-concurrent-with-log-change-not-logged") else
+      checkWrite { st with logOn := some (sz, off) } "concurrent" (((List.range (min nt 8)).map fun i => pages (g + 4096 * i + i) 1).flatten)
+        (body.drop 2).toString
+    | _, _, _, _ => (st, some "unparsable")
   | _ => (st, some "unparsable")
 
 /-- input: `scenario => observation` -/
